@@ -16,7 +16,7 @@ MANIFEST = dict(
          "succeeds for every start and every positive length (faultfree_success, full statement since the fix of D1). The simulator's per-segment arithmetic "
          "is translated from the source on every run; the assemblers are hand models tied by differential correspondence with the real classes driven "
          "by the real simulator's segment handlers through real STATV encode/decode under seeded fault streams."
-         " Since session 3: one long-lived simulator built by its real constructor serves the whole run; segments travel framed and are unwrapped by the real packet handler; the spa block carries the transport's own tags; an identical request repeated after the block changed must be served with the current bytes. Session 4: the same fault streams also run through the real engine loop (_thread_func, one iteration at a time) on a socket whose buffer holds whole bursts of datagrams (every segment doubled on every single-segment range): same outcome as the datagram-by-datagram run, property read directly. Also histories on ONE long-lived awaitable structure (transfers interleaved with partial-update patches, wholesale loads and overlapping transfers) and async_get_keeps_no_state_between_transfers / threaded_assembler_state_inventory over the regenerated skeletons. Also two transfers requested concurrently on one connection with a re-ordered opening segment, and transfer_holds_the_connection_for_all_its_attempts. Session 5: install_needs_in_sequence_final_segment (+ _traces): in both assemblers replace_status_block_segment is reachable only on a path on which the segment in hand was in sequence AND final (guard monitor over the regenerated skeletons, onlyUnderBothGuards_sound); the fake OS socket truncates a datagram to the reader's buffer. Round 15: refreshes of a CONNECTED blocking client with both of its threads stepped (ping thread calls refresh() once per ping period) and the answer to one refresh lost; every segment doubled back to back also through the awaitable structure, on short chains. Round 16: skeleton theorem refresh_only_when_connected over the regenerated GeckoSpa.refresh (the blocking client's session glue is in the skeleton inventory).",
+         " Since session 3: one long-lived simulator built by its real constructor serves the whole run; segments travel framed and are unwrapped by the real packet handler; the spa block carries the transport's own tags; an identical request repeated after the block changed must be served with the current bytes. Session 4: the same fault streams also run through the real engine loop (_thread_func, one iteration at a time) on a socket whose buffer holds whole bursts of datagrams (every segment doubled on every single-segment range): same outcome as the datagram-by-datagram run, property read directly. Also histories on ONE long-lived awaitable structure (transfers interleaved with partial-update patches, wholesale loads and overlapping transfers) and async_get_keeps_no_state_between_transfers / threaded_assembler_state_inventory over the regenerated skeletons. Also two transfers requested concurrently on one connection with a re-ordered opening segment, and transfer_holds_the_connection_for_all_its_attempts. Session 5: install_needs_in_sequence_final_segment (+ _traces): in both assemblers replace_status_block_segment is reachable only on a path on which the segment in hand was in sequence AND final (guard monitor over the regenerated skeletons, onlyUnderBothGuards_sound); the fake OS socket truncates a datagram to the reader's buffer. Round 15: refreshes of a CONNECTED blocking client with both of its threads stepped (ping thread calls refresh() once per ping period) and the answer to one refresh lost; every segment doubled back to back also through the awaitable structure, on short chains. Round 16: skeleton theorem refresh_only_when_connected over the regenerated GeckoSpa.refresh (the blocking client's session glue is in the skeleton inventory). Round 17: a change the spa reports is applied BETWEEN two segments of a transfer, at bytes outside the requested range, and must still be there afterwards (check_update_during_transfer).",
     note="Trusted: Lean kernel, translator (cross-checked by sweeping (start,len) against the real simulator's queued segments), correspondence harness "
          "(virtual-time loop for the async client; stepped engine with patched clock for the threaded one). Datagram corruption and late segments of a "
          "different transfer window are outside the fault model (as in the property). Lock / polling / timeout timing is C06.",
@@ -103,6 +103,9 @@ def gen_stream(rng, nseg):
     return kind, ev[:400]
 
 
+PATCH = b"\xee\xdd"
+
+
 def run_async(spa, cli, start, length, retry, tokens, chain):
     """the REAL GeckoAsyncStructure.get on the virtual loop, fed from the token stream"""
     from geckolib.driver.async_spastruct import GeckoAsyncStructure
@@ -142,6 +145,9 @@ def run_async(spa, cli, start, length, retry, tokens, chain):
                     n = len(tr.sent)
                     while len(tr.sent) == n and not done.is_set():
                         await asyncio.sleep(0.05)
+                elif tok[0] == "p":
+                    # the partial-update consumer applies a change the spa reported, NOW (between two segments of this transfer)
+                    st.replace_status_block_segment(int(tok[1:]), PATCH)
                 else:
                     proto.datagram_received(chain[int(tok[1:])][3], SENDER)
                     # let the client drain what is queued before the next arrival is decided
@@ -768,6 +774,10 @@ def run(ctx):
         if lines[i].startswith(("async", "sync ")) and "t" in lines[i].split(" ")[-1]:
             ctx.sample({"op": lines[i][:160], "impl": impl_ans[i]})
     check_connected_refreshes(ctx)
+    try:
+        check_update_during_transfer(ctx, spa, cli, chains)
+    except Exception as e:  # noqa
+        ctx.obligation_broken("harness:update-during-transfer", f"{type(e).__name__}: {e}")
     ctx.cov["distinct_nontrivial"] = len(nontrivial)
     ctx.cov["rule"] = ("(start,len) = boundaries, multiples of 39 +-1, shipped refresh windows, seeded random (thorough: every length at starts 0 and 256); for each the "
                        "real simulator's chain is compared with the generated arithmetic; in-order streams for the fault-free clause (all multiples of 39 always; all pairs in "
@@ -775,6 +785,37 @@ def run(ctx):
                        "real assemblers. non-trivial = faulty stream over a chain of >= 2 segments; distinct by (fault kind, chain length, outcome, sends)")
     ctx.assumptions += ["segments are genuine (the real simulator's bytes for this request); delivery order/loss/duplication is adversarial",
                         "the threaded engine is stepped deterministically (dispatch, handler.loop, cleanup) with a patched clock; no thread is started"]
+
+
+def check_update_during_transfer(ctx, spa, cli, chains, only=None):
+    """the client's copy has another writer: a change the spa reports (a partial update) is applied BETWEEN two segments of a transfer, at
+    bytes outside the requested range. The transfer succeeds, the requested bytes are the spa's, and the reported change is still there"""
+    todo = [p_ for p_ in sorted(chains) if 3 <= len(chains[p_]) <= 8][:: max(1, len([p_ for p_ in chains if 3 <= len(chains[p_]) <= 8]) // 6)][:6]
+    for (s0, ln) in todo:
+        ch = chains[(s0, ln)]
+        pos = s0 - 7 if s0 >= 9 else s0 + ln + 45        # (clear of the final segment, which may carry the spa's bytes past the requested end)
+        if not (0 <= pos and pos + 2 <= len(cli)) or (s0 - 2 < pos < s0 + ln):
+            continue
+        for after in range(0, len(ch) - 1):
+            if only is not None and only != [s0, ln, after]:
+                continue
+            toks = [f"s{i}" for i in range(after + 1)] + [f"p{pos}"] + [f"s{i}" for i in range(after + 1, len(ch))]
+            try:
+                r = run_async(spa, cli, s0, ln, 2, toks, ch)
+            except Exception as e:  # noqa
+                r = {"ok": f"raised {type(e).__name__}: {e}", "block": b"", "sends": 0}
+            ctx.count("evaluations")
+            ctx.hist("update_during_transfer", f"{len(ch)} segments")
+            blk = r["block"]
+            want = bytearray(cli)
+            want[pos:pos + 2] = PATCH
+            want[s0:s0 + ln] = spa[s0:s0 + ln]
+            diff = [i for i in range(min(len(blk), len(want))) if blk[i] != want[i] and not (not (s0 <= i < s0 + ln) and blk[i] == spa[i])][:6]
+            if r["ok"] is not True or len(blk) != len(want) or diff:
+                ctx.violation("install:async:update-during-transfer", {"kind": "update-during-transfer", "case": [s0, ln, after], "spa_hex": spa.hex(), "cli_hex": cli.hex()},
+                              f"the transfer succeeds; bytes {s0}..{s0 + ln - 1} are the spa's, bytes {pos}..{pos + 1} hold the change reported meanwhile ({PATCH.hex()}), everything else is untouched",
+                              {"ok": r["ok"], "differs_at": diff, "client holds at the reported change": bytes(blk[pos:pos + 2]).hex() if len(blk) >= pos + 2 else None})
+                return
 
 
 def check_connected_refreshes(ctx, only=None):
@@ -804,6 +845,11 @@ def replay(inp):
     import random
     from common import Ctx
     ctx = Ctx("C01", "quick", 0)
+    if inp.get("kind") == "update-during-transfer":
+        s0, ln, after = inp["case"]
+        chains_ = {(s0, ln): real_chain(spa, s0, ln)}
+        check_update_during_transfer(ctx, spa, cli, chains_, only=[s0, ln, after])
+        return bool(ctx.violations), ctx.violations[0]["observed"] if ctx.violations else "the reported change is still there"
     if inp.get("kind") == "connected-refreshes":
         check_connected_refreshes(ctx, only=inp["case"])
         return bool(ctx.violations), ctx.violations[0]["observed"] if ctx.violations else "the client's copy is the spa's"
